@@ -153,7 +153,7 @@ func c20Run(r *core.Run) {
 		r.Probe("message_of_megabytes_compressed")
 	}
 	lay := world.DrawLayout(t)
-	if sh := t.Int(8, "c20.idpshadow"); sh >= 1 && sh <= 2 {
+	if sh := t.Int(12, "c20.idpshadow"); sh >= 1 && sh <= 6 {
 		// the IdP itself (and its signature) carries vendor attributes spelled like the SAML ones
 		lay.ShadowRoot, lay.Shuffle = sh, false
 		r.Probe("idp_signed_shadow_attributes")
